@@ -416,3 +416,90 @@ func (c *Check) helperCallSites(prefix string, pff *Func, u *feeUnits) {
 func (c *Check) batchStateInventory(prefix string) {
 	c.contextFieldRules(prefix, map[string]bool{"batchstate": true})
 }
+
+// updatesTakeEffect: an accepted update changes what it was asked to change. For the function that stores the updatable
+// fields of a context from its own parameters (found by those writes), on every committed path and for every such
+// (field, parameter) pair: either the path has established that the parameter was left empty / zero ("not provided"), or
+// the context stored on that path carries the parameter in that field. A committed path that returns without storing,
+// or stores the old value, while the parameter may have been provided, drops an accepted update (a fee cap that was
+// lowered but keeps being applied, a provider list that was narrowed but keeps being used).
+func (c *Check) updatesTakeEffect(rule string) {
+	pairs := map[*Func]map[string]*Term{}
+	for _, w := range c.contextWrites() {
+		if w.L.Op == "lit" || w.Helper {
+			continue
+		}
+		for _, f := range []string{"ServiceFeeCap", "Providers", "Timeout", "RepeatedFrequency", "RepeatedTotal"} {
+			if v, ok := w.W[f]; ok {
+				v = stripConv(stripSpread(v))
+				if v.Op == "" && strings.HasPrefix(v.At, "P") {
+					if pairs[w.Fn] == nil {
+						pairs[w.Fn] = map[string]*Term{}
+					}
+					pairs[w.Fn][f] = v
+				}
+			}
+		}
+	}
+	var fs []*Func
+	for f, m := range pairs {
+		if len(m) >= 3 {
+			fs = append(fs, f)
+		}
+	}
+	sort.Slice(fs, func(i, j int) bool { return fs[i].Name < fs[j].Name })
+	if len(fs) == 0 {
+		c.undecided(rule, "update-function", token.NoPos, "no function stores at least three updatable context fields from its own parameters")
+		return
+	}
+	for _, f := range fs {
+		var fields []string
+		for k := range pairs[f] {
+			fields = append(fields, k)
+		}
+		sort.Strings(fields)
+		bad := map[string]token.Pos{}
+		nPaths := 0
+		for _, pa := range c.P.PathsOf(f) {
+			if pa.Exit != ExitSuccess {
+				continue
+			}
+			nPaths++
+			af := pa.AllFacts()
+			var stored *Term
+			for _, e := range c.pathEffects(f, pa) {
+				if e.Kind == "store" && e.Op == "Set" && e.Family == "0x08" && e.Val != nil {
+					if sv := structIn(e.Val, "RequestContext"); sv != nil {
+						stored = sv
+					}
+				}
+			}
+			for _, fld := range fields {
+				p := pairs[f][fld]
+				notProvided := af.Holds(mk("nonempty", p), false) || af.Holds(mk("==", p, atom("#0")), true) || af.Holds(mk("sdk.Coins.Empty", p), true)
+				// a signed argument that is not positive: zero is "not provided", a negative value is excluded by stateless validation (C10.3 decides that validator)
+				if !notProvided && !isUnsigned(p.Typ) && af.Holds(mk("<", atom("#0"), p), false) {
+					notProvided = true
+				}
+				if notProvided {
+					continue
+				}
+				if stored != nil && stripConv(stripSpread(field("RequestContext", fld, stored))).Eq(p) {
+					continue
+				}
+				if _, dup := bad[fld]; !dup {
+					bad[fld] = pa.RetPos
+				}
+			}
+		}
+		c.Sites += nPaths * len(fields)
+		for _, fld := range fields {
+			pos, isBad := bad[fld]
+			if !isBad {
+				pos = f.Body.Pos()
+			}
+			c.req(!isBad, rule, unitConstruct(f, "update-takes-effect:"+fld), pos,
+				"on every committed path the new "+fld+" is stored unless the path has established that none was given"+condStr(isBad, ": a committed path ends at "+c.pos(pos)+" without storing the given value"))
+		}
+	}
+}
